@@ -2,7 +2,7 @@
     typestate.  Property theorems only. *)
 From Coq Require Import ZArith List Bool String.
 From PV Require Import Model.Base Model.Sched Model.Seq Model.Api Gen.Api.
-From PV Require Import Proofs.Typestate.
+From PV Require Import Proofs.Typestate Proofs.ModeInv.
 Import ListNotations.
 Open Scope Z_scope.
 
@@ -94,3 +94,11 @@ Theorem C13_available_spec :
      (q_inxy s = false -> c_basis cfg <> 2)).
 Proof. exact available_spec. Qed.
 Print Assumptions C13_available_spec.
+
+(** Channel identities (name, device id, configuration) and the XY / Ising
+    mode flags are changed by declarations only: every other call, successful
+    or not, from every state, leaves them exactly as they were. *)
+Theorem C13_only_declarations_change_mode :
+  forall v o s, declares o = false -> mode (fst (step v s o)) = mode s.
+Proof. exact only_declarations_change_mode. Qed.
+Print Assumptions C13_only_declarations_change_mode.
